@@ -12,7 +12,8 @@ Model of primitive values and their encoding:
   encodePrimitive be v      `encode_primitive`: (bytes written, returned count)
   evenLen n                 `even_len`
   Enc                       StatefulEncoder state: output so far and `bytes_written`, syntax
-  Enc.* operations          return `Except WErr Enc`
+  Enc.* operations          return `Except WErr Enc`; `Enc.encodePrimitiveElement` = `encode_primitive_element`
+                            (= `Enc.primitiveElement` after the OW/U8 re-packing `owWords`)
 Text is a list of bytes (the UTF-8 bytes of the Rust `String`); the text codecs are modelled on the
 default repertoire only: encoding is the identity on bytes < 0x80 (`TextOk`), which is what every
 `SpecificCharacterSet` of dicom-rs does for ASCII. Dates/times are carried as their `to_encoded()` text
@@ -232,7 +233,7 @@ def Enc.elementAsText (e : Enc) (v : PValue) (de : ElemHeader) : Except WErr Enc
 /-- pad byte of the binary path -/
 def binPad (vr : VR) : Nat := if vr = .DA ∨ vr = .DT ∨ vr = .TM then 0x20 else 0
 
-/-- `encode_primitive_element` -/
+/-- `encode_primitive_element` without its OW/U8 arm (see `Enc.encodePrimitiveElement` below) -/
 def Enc.primitiveElement (e : Enc) (de : ElemHeader) (v : PValue) : Except WErr Enc :=
   match v with
   | .str text => e.textElement text de
@@ -246,5 +247,24 @@ def Enc.primitiveElement (e : Enc) (de : ElemHeader) (v : PValue) : Except WErr 
         let (bs, n) := encodePrimitive e.ts.bigEndian v
         let e2 := e1.push bs n
         if n % 2 ≠ 0 then .ok (e2.push [binPad de.vr] 1) else .ok e2
+
+/-- `bytes.chunks(2).map(|c| u16::from_le_bytes([c[0], c.get(1).unwrap_or(0)]))` -/
+def packWords : Bytes → List Nat
+  | [] => []
+  | [a] => [a]
+  | a :: b :: r => (a + 256 * b) :: packWords r
+
+/-- the `PrimitiveValue::U8(bytes) if de.vr == VR::OW` arm of `encode_primitive_element` (fix 457c39a):
+8-bit samples held as bytes under OW are re-packed into 16-bit words, which the encoder then writes in the
+byte order of the syntax; every other (VR, value) is left alone -/
+def owWords (vr : VR) (v : PValue) : PValue :=
+  match v with
+  | .u8 bytes => if vr = .OW then .u16 (packWords bytes) else v
+  | _ => v
+
+/-- **`StatefulEncoder::encode_primitive_element`** (the whole function): the OW/U8 arm, then the arms
+modelled by `Enc.primitiveElement` (Str, Strs, DS/IS-as-text, binary) -/
+def Enc.encodePrimitiveElement (e : Enc) (de : ElemHeader) (v : PValue) : Except WErr Enc :=
+  e.primitiveElement de (owWords de.vr v)
 
 end Dicom
